@@ -48,6 +48,7 @@ type Stats struct {
 	Terminal    map[string]int // distinct terminal observations
 	Violations  int
 	Bound       int
+	Restarted   bool // file-operation interleaving was switched on during the run
 }
 
 type frame struct {
@@ -65,9 +66,13 @@ func Explore(h Harness, o Options) Stats {
 	}
 	seen := map[string]struct{}{}
 	stack := []frame{{}}
+	multi0 := MultiAccessor
 	// determinism obligation: the first schedule is executed twice with identical logs
 	{
 		a, oa, la := runOnce(h, o, nil, nil, true)
+		if MultiAccessor != multi0 {
+			return Explore(h, o)
+		}
 		b, ob, lb := runOnce(h, o, nil, nil, true)
 		if oa != ob || la != lb || strings.Join(a, "\n") != strings.Join(b, "\n") {
 			fmt.Fprintf(os.Stderr, "verifmc: harness %s is not deterministic:\nrun1 (%v) %s\n%s\nrun2 (%v) %s\n%s\n", h.Name, oa, la, strings.Join(a, "\n"), ob, lb, strings.Join(b, "\n"))
@@ -149,6 +154,13 @@ func Explore(h Harness, o Options) Stats {
 		s.Finish()
 		if h.Cleanup != nil {
 			h.Cleanup()
+		}
+		if MultiAccessor != multi0 {
+			// a second store accessor appeared: file operations are scheduling points from now
+			// on, which changes the shape of every execution - start over with them enabled
+			r := Explore(h, o)
+			r.Restarted = true
+			return r
 		}
 		if len(viols) > 0 {
 			st.Violations += confirmAndReport(h, o, viols, choices)
